@@ -468,7 +468,11 @@ func (g *Gen) try(k string) (Op, bool) {
 			return o, false
 		}
 		n := g.wtmax - []uint64{0, 1, 16, 4095, 4096, 8192}[g.rng.Intn(6)]
-		off := []uint64{0, 100, 8 * 4096, 8*4096 - 100, (8+512)*4096 - 300*4096 + 7}[g.rng.Intn(5)]
+		off := []uint64{0, 100, 8 * 4096, 8*4096 - 100, (8+512)*4096 - 300*4096 + 7, (8+512)*4096 - 300*4096 + 7}[g.rng.Intn(6)]
+		if off > 9*4096 {
+			// unaligned and across the first index boundary: the most journal space one WRITE can need; keep it at the limit
+			n = g.wtmax - []uint64{0, 0, 1, 16}[g.rng.Intn(4)]
+		}
 		big := Op{Proc: "write", H: f.sym, Off: off, Cnt: n, Stable: uint32(g.rng.Intn(3)), Data: DataSpec{Pat: true, Len: n, Seed: uint64(g.rng.Intn(250))}}
 		if g.unstableFile != nil && !g.unstableFile.dead {
 			o = big
@@ -485,6 +489,20 @@ func (g *Gen) try(k string) (Op, bool) {
 			o = big
 			g.pend = &pending{target: f}
 		}
+	case "holefill": // a hole inside the file, then the hole is filled without growing the file (any stability level), then COMMIT
+		f := g.pick(1)
+		if f == nil {
+			return o, false
+		}
+		base := (f.size/4096 + 1) * 4096
+		far := base + uint64(1+g.rng.Intn(3))*4096
+		k := uint64(1 + g.rng.Intn(5000))
+		o = Op{Proc: "write", H: f.sym, Off: far, Cnt: k, Stable: uint32(g.rng.Intn(3)), Data: DataSpec{Pat: true, Len: k, Seed: uint64(g.rng.Intn(250))}}
+		g.pend = &pending{target: f}
+		m := uint64(1 + g.rng.Intn(4096))
+		g.enq(&pending{target: f}, Op{Proc: "write", H: f.sym, Off: base + uint64(g.rng.Intn(2))*uint64(g.rng.Intn(int(4097-m))), Cnt: m, Stable: uint32(g.rng.Intn(3)),
+			Data: DataSpec{Pat: true, Len: m, Seed: uint64(g.rng.Intn(250))}})
+		g.enq(nil, Op{Proc: "commit", H: f.sym})
 	case "hugesymlink": // a link target larger than one transaction can log: the commit itself must fail cleanly
 		d := g.pick(2)
 		n := uint64(512+g.rng.Intn(120)) * 4096
